@@ -127,12 +127,18 @@ static void do_sync(int u)
 }
 
 #ifdef FL_BP
+static void *slots_seen[64]; static int nslots_seen; static int live_threads, peak_threads;
 static NS void bp_slot_check(void)
 {
 	struct tstate *t = me_ts();
 	void *s = (void *)URCU_TLS(urcu_bp_reader);
 	if (!s) return;
-	if (!t->bp_slot) t->bp_slot = s;
+	if (!t->bp_slot) {
+		t->bp_slot = s;
+		int k; for (k = 0; k < nslots_seen; k++) if (slots_seen[k] == s) break;
+		if (k == nslots_seen && nslots_seen < 64) slots_seen[nslots_seen++] = s;
+		if (nslots_seen > 2) ds_flag(CF_BP_GROW);	/* INIT_READER_COUNT=2 (hook): a third distinct slot means the arena grew */
+	}
 	else if (t->bp_slot != s) ds_fail("bp: reader slot of E%d moved from %p to %p", ds_self(), t->bp_slot, s);
 }
 #endif
@@ -164,9 +170,16 @@ static NS void sig_sec_end(int tid, struct sigsave *sv)
 }
 static NS void sig_post(int tid, struct sigsave *sv) { memcpy(ts[tid].maxb, sv->maxb, sizeof sv->maxb); }
 static NS int get_sig_reads(void) { return sig_reads; }
+#ifdef FL_BP
+# define SIG_MAY_RUN(tid) 1
+#else
+static NS int sig_may_run(int tid) { return ts[tid].registered; }	/* memb/mb: handlers may use RCU only on a registered thread */
+# define SIG_MAY_RUN(tid) sig_may_run(tid)
+#endif
 static void on_signal(int tid)
 {
 	struct sigsave sv;
+	if (!SIG_MAY_RUN(tid)) return;
 	int ongoing_before = F(read_ongoing)();
 	unsigned long ctr_before = FL_READER_CTR();
 	sig_pre(tid, &sv);
@@ -179,7 +192,9 @@ static void on_signal(int tid)
 	sig_post(tid, &sv);
 	int ongoing_after = F(read_ongoing)();
 	unsigned long ctr_after = FL_READER_CTR();
-	if (!!ongoing_before != !!ongoing_after || ctr_before != ctr_after)
+	/* nesting must be restored; if the interrupted code was inside a section its whole reader word (phase snapshot) must be too.
+	   With nesting 0 the word legitimately keeps the phase bits of the handler's own outermost lock. */
+	if (!!ongoing_before != !!ongoing_after || (ctr_before & FL_NEST_MASK) != (ctr_after & FL_NEST_MASK) || ((ctr_before & FL_NEST_MASK) && ctr_before != ctr_after))
 		ds_fail("signal handler on E%d changed read-side state: read_ongoing %d -> %d, reader word %lx -> %lx", tid, ongoing_before, ongoing_after, ctr_before, ctr_after);
 }
 
@@ -250,6 +265,22 @@ static void *thread_main(void *arg)
 	return NULL;
 }
 
+static NS void note_live(int d)
+{
+#ifdef FL_BP
+	live_threads += d; if (live_threads > peak_threads) peak_threads = live_threads;
+#else
+	(void)d;
+#endif
+}
+static NS void slot_reuse_oracle(void)
+{
+#ifdef FL_BP
+	/* arena_alloc hands out the first free slot: with at most `peak` threads alive at once, at most `peak` distinct slots are ever used */
+	if (nslots_seen > peak_threads)
+		ds_fail("bp: %d distinct reader slots were handed out although at most %d threads were alive at any time: slots of exited threads are not reused", nslots_seen, peak_threads);
+#endif
+}
 static NS void interval_oracle(void)
 {
 	/* a section begun (lock returned) before a synchronize_rcu() call and not ended when that call returns is a violation */
@@ -279,8 +310,8 @@ static void scenario(void)
 	sig_reads = (int)ds_cfg("sigreads", 2);
 	ds_set_sighandler(on_signal);
 	if (ds_nops(0) == 0) {
-		for (int t = 1; t < np; t++) tids[t] = ds_spawn(thread_main, (void *)(long)t);
-		for (int t = 1; t < np; t++) ds_join(tids[t]);
+		for (int t = 1; t < np; t++) { tids[t] = ds_spawn(thread_main, (void *)(long)t); note_live(1); }
+		for (int t = 1; t < np; t++) { ds_join(tids[t]); note_live(-1); }
 	} else {
 		for (int i = 0; i < ds_nops(0); i++) {
 			long a0;
@@ -288,12 +319,13 @@ static void scenario(void)
 			ds_op_begin(i);
 			int t = (int)a0;
 			if (t < 1 || t >= np) ds_bad_case("gp: bad thread in T0 program");
-			if (op == OP_SPAWN) tids[t] = ds_spawn(thread_main, (void *)(long)t);
-			else if (op == OP_JOIN) ds_join(tids[t]);
+			if (op == OP_SPAWN) { tids[t] = ds_spawn(thread_main, (void *)(long)t); note_live(1); }
+			else if (op == OP_JOIN) { ds_join(tids[t]); note_live(-1); }
 			else ds_bad_case("gp: op not valid in T0 program");
 		}
 	}
 	interval_oracle();
+	slot_reuse_oracle();
 	ds_done();
 }
 DS_SCENARIO(FLSCEN("gp"), scenario)
